@@ -241,7 +241,7 @@ def run(ctx):
                 check_read_loop(rep, key, L, R, parents, inner_ids)
                 check_prefix_scan(rep, key, L, R)
                 check_acc_reset(rep, key, body, loops, L, R)
-                check_request_buffer(rep, key, R)
+                check_request_buffer(rep, key, R, prog, h)
         # ---------------- SRV-8
         check_response_buffer(rep, key, body, loops)
         # ---------------- SRV-4
@@ -472,6 +472,13 @@ def check_acc_reset(rep, key, body, loops, L, R):
         if inside and any(is_accept_await(n) for (n, _) in direct_nodes(cand)):
             A = cand
     if A is None:
+        # the read loop lives in a helper that reads ONE request head: a counter declared in that helper is fresh for
+        # every call (the helper is not an accept loop itself)
+        if any(x.get("k") == "let" and any(i == aid for _, i in hir.pat_bindings(x["pat"]))
+               for x in hir.walk(body, enter_closures=False)) and not any(
+                   is_accept_await(n) for n in hir.walk(body, enter_closures=False)):
+            rep.ok("SRV-6", key, "read counter `%s` per connection" % aname,
+                   detail="declared in the helper that reads one request", where=hir.where(R))
         return
     construct = "read counter `%s` per connection" % aname
     declared_inside = any(x.get("k") == "let" and any(i == aid for _, i in hir.pat_bindings(x["pat"]))
@@ -604,7 +611,7 @@ def cond_is_zero_test(c, bid):
     return False
 
 
-def check_request_buffer(rep, key, R):
+def check_request_buffer(rep, key, R, prog=None, h=None):
     """SRV-9: the array the request is accumulated in"""
     import re
     e = hir.strip_wrappers(R["e"])
@@ -616,6 +623,33 @@ def check_request_buffer(rep, key, R):
         return
     base = hir.strip_wrappers(dest["e"])
     m = re.search(r"\[u8; (\d+)\]", base.get("ty") or "")
+    if not m and prog is not None and h is not None and base.get("k") == "path" and "[u8]" in (base.get("ty") or ""):
+        # the buffer is a slice PARAMETER of a helper: the arrays its callers pass
+        pidx = [i for i, p_ in enumerate(h.get("params", [])) if p_.get("id") == base.get("res", {}).get("id")] or \
+            [i for i, p_ in enumerate(h.get("params", [])) if p_.get("name") and p_.get("name") == base.get("res", {}).get("local")]
+        sizes = []
+        fname = key.split("::")[-1]
+        if pidx:
+            for k2, (u2, h2) in prog.hir.items():
+                if "::tests::" in k2:
+                    continue
+                for c in hir.walk(hir.simplify(hir.fn_body(h2)), enter_closures=True):
+                    if c.get("k") == "call" and hir.callee_name(c).split("::")[-1] == fname and len(c.get("args", [])) > pidx[0]:
+                        a = hir.strip_wrappers(c["args"][pidx[0]])
+                        m2 = re.search(r"\[u8; (\d+)\]", a.get("ty") or "")
+                        if m2:
+                            sizes.append(int(m2.group(1)))
+        if sizes:
+            m = re.match(r"(\d+)", str(min(sizes)))
+            n = min(sizes)
+            name = base.get("res", {}).get("local", "?")
+            if n >= 2048:
+                rep.ok("SRV-9", key, "request buffer `%s`" % name, detail={"bytes": n, "passed_by_callers": len(sizes)}, where=hir.where(R))
+            else:
+                rep.violation("SRV-9", key, "request buffer `%s`" % name,
+                              "the request head is read into a buffer of %d bytes passed by the caller: a well-formed GET head "
+                              "longer than that (within the promised 2048 bytes) is dropped without an answer" % n, where=hir.where(R))
+        return
     if not m:
         return
     n = int(m.group(1))
